@@ -93,7 +93,7 @@ def run_tlc(module, cfg_text, workdir, extra_modules=(), workers=16, timeout=360
     with open(cfg, "w") as fh:
         fh.write(cfg_text)
     meta = os.path.join(workdir, "meta-" + module)
-    cmd = ["java", f"-Xmx{heap}", "-XX:+UseParallelGC", "-cp", JAR, "tlc2.TLC", "-workers", str(workers),
+    cmd = ["java", f"-Xmx{heap}", "-Xss128m", "-XX:+UseParallelGC", "-cp", JAR, "tlc2.TLC", "-workers", str(workers),
            "-metadir", meta, "-noGenerateSpecTE", "-config", cfg]
     if not deadlock:
         cmd.append("-deadlock")
